@@ -193,9 +193,6 @@ def kernels_cross_check(ctx, report, status):
             want = np.zeros((rows, cols), dtype=np.int64)
             dil_l = criteria.binary_dilation_msk(left, 2 * off + 1) if ml is not None else None
             dil_r = criteria.binary_dilation_msk(right, 2 * off + 1) if mr is not None else None
-            n_it = ev("rangeLen", a, b)[0]
-            if n_it != len(range(a, b + 1)):
-                problem(f"translated len(range(d_min, d_max + 1)) = {n_it} for {geo}")
             for c in range(cols):
                 flag0, bit1 = ev("validityMaskCol", col0 + c, col0, col0 + cols - 1, a, b, off)
                 for r in range(rows):
